@@ -16,8 +16,8 @@ TECHNIQUE = ('fault enumeration + property-based testing (Hypothesis): generated
              'catalogue once per run on a fixed base) must be rejected; min_version and #require gates are probed with '
              'version pairs whose numeric and lexical orders differ, against an own semantic-version comparator')
 RULE = ('Base definitions come from the broad ISA generator (all operand types, zones, macros). One fault from the '
-        'catalogue is applied: missing general / instructions; keyword mnemonic (any letter case) / register; macro '
-        'named like an instruction; undeclared operand set; register operand naming an undeclared register; count != '
+        'catalogue is applied: missing general / instructions; keyword mnemonic or macro name (any letter case) / register; macro '
+        'named like an instruction; undeclared operand set; register operand naming an undeclared register (also as the index or base of a register-indexed operand); count != '
         'number of operand sets (instructions and macros); numeric_bytecode max < min; zone inverted / beyond the address '
         'width / origin below a redefined GLOBAL. Version gates: min_version around the running version 0.4.3b1 and the '
         'minimum 0.3.0; #require "name op version" for the five operators x ISA versions (1.10.0 vs 1.9.0 ...), '
@@ -39,8 +39,8 @@ LEVEL_TEXT = ('Fault enumeration over a fixed catalogue, multiplied over generat
 LEVEL_NOTE = ('Trusted: the fault injectors and the version comparator in this module; the running version (0.4.3b1) and '
               'minimum (0.3.0) are read from bespokeasm/__init__.py at run time.')
 
-FAULTS = ['missing-general', 'missing-instructions', 'keyword-mnemonic', 'keyword-register', 'macro-named-like-instruction',
-          'undeclared-operand-set', 'undeclared-register', 'count-mismatch', 'macro-count-mismatch', 'max-below-min',
+FAULTS = ['missing-general', 'missing-instructions', 'keyword-mnemonic', 'keyword-macro', 'keyword-register', 'macro-named-like-instruction',
+          'undeclared-operand-set', 'undeclared-register', 'undeclared-register-in-indexed-operand', 'count-mismatch', 'macro-count-mismatch', 'max-below-min',
           'zone-inverted', 'zone-beyond-width', 'origin-below-global']
 INFORMATIONAL = ['unknown-operand-type', 'unknown-position', 'instruction-without-bytecode', 'register-as-enum-key',
                  'non-semver-version', 'deprecated-memory', 'unknown-file-extension']
@@ -82,6 +82,11 @@ def apply_fault(cfg, fault, draw):
         kw = draw(st.sampled_from(KEYWORDS))
         kw = draw(st.sampled_from([kw, kw.upper(), kw.lower(), kw.title()]))
         cfg['instructions'][kw] = {'bytecode': {'value': 1, 'size': 8}}
+    elif fault == 'keyword-macro':
+        # a macro name is a mnemonic too
+        kw = draw(st.sampled_from(KEYWORDS + ['LSB', 'BYTE0', 'BYTE1', 'BYTE9']))
+        kw = draw(st.sampled_from([kw, kw.upper(), kw.lower(), kw.title()]))
+        cfg.setdefault('macros', {})[kw] = [{'instructions': [sorted(cfg['instructions'])[0]]}]
     elif fault == 'keyword-register':
         g['registers'] = list(g.get('registers') or []) + [draw(st.sampled_from(KEYWORDS))]
     elif fault == 'macro-named-like-instruction':
@@ -98,10 +103,24 @@ def apply_fault(cfg, fault, draw):
     elif fault == 'undeclared-operand-set':
         cfg['instructions']['zzq'] = {'bytecode': {'value': 1, 'size': 8},
                                       'operands': {'count': 1, 'operand_sets': {'list': ['no_such_set']}}}
-    elif fault == 'undeclared-register':
+    elif fault in ('undeclared-register', 'undeclared-register-in-indexed-operand'):
         where = draw(st.sampled_from(['set', 'specific', 'indirect', 'specific-of-another-length']))
+        if fault == 'undeclared-register-in-indexed-operand':
+            where = draw(st.sampled_from(['index-of-indexed', 'index-of-indirect-indexed', 'base-of-indexed']))
         alt = {'type': 'indirect_register' if where == 'indirect' else 'register', 'register': 'qq',
                'bytecode': {'value': 0, 'size': 2}}
+        if where in ('index-of-indexed', 'index-of-indirect-indexed', 'base-of-indexed'):
+            # the undeclared register is the index (or the base) of a register-indexed operand
+            regs = list(g.get('registers') or []) or ['a']
+            g['registers'] = regs
+            ok = {'type': 'register', 'register': regs[-1], 'bytecode': {'value': 1, 'size': 2}}
+            inner = {'type': 'register', 'register': 'qq', 'bytecode': {'value': 0, 'size': 2}}
+            alt = {'type': 'indirect_indexed_register' if where == 'index-of-indirect-indexed' else 'indexed_register',
+                   'register': 'qq' if where == 'base-of-indexed' else regs[0], 'bytecode': {'value': 0, 'size': 2},
+                   'index_operands': {'okreg': ok} if where == 'base-of-indexed' else
+                   draw(st.sampled_from([{'badreg': inner}, {'okreg': ok, 'badreg': inner},
+                                         {'num': {'type': 'numeric', 'argument': {'size': 8, 'byte_align': True}}, 'badreg': inner}]))}
+            where = 'set'
         if where == 'specific-of-another-length':
             # the faulty combination lists two operands where the instruction takes one: it can never match, it is
             # malformed all the same
@@ -338,6 +357,8 @@ def execute(case, ctx):
     elif expect == 'accepted' and res.klass != 'accepted':
         findings.append(Finding('C19/rejected-although-' + ('well-formed' if kind == 'wellformed' else tag.replace(':', '-')), detail))
     classes = ['kind:' + kind, 'what:' + tag, 'outcome:' + res.klass, 'asserted:' + str(expect is not None)]
+    if kind == 'fault' and 'index_operands' in str((cfg.get('operand_sets') or {}).get('bad_set')):
+        classes.append('undeclared-register-inside-a-register-indexed-operand:' + res.klass)
     sample = {'kind': kind, 'what': tag, 'expected': expect, 'tool': res.klass,
               'general': cfg.get('general'), 'source': src}
     return Outcome(findings, nontrivial, classes, 1, sample=sample)
